@@ -7,6 +7,6 @@ from nrfsa.model import Program
 pid, rel, old, new = sys.argv[1:5]
 mod = importlib.import_module("nrfsa.rules." + pid.lower())
 ck0 = report.Checker(pid, Program("/repo"), "quick", "/repo"); mod.run(ck0)
-base = {o.rule + " " + o.func for o in ck0.obls if not o.ok}
+base = {o.rule + " " + o.func + " :: " + o.construct for o in ck0.obls if not o.ok}
 name, status, fails = selftest._one(("/repo", mod.__name__, pid, {"name": "adhoc", "file": rel, "old": old, "new": new, "nth": int(sys.argv[5]) if len(sys.argv) > 5 else 0}))
-print(status, [f for f in fails if f not in base])
+print(status, sorted({f.split(" :: ")[0] for f in fails if f not in base}))
